@@ -456,6 +456,10 @@ class ObjectIdentifierProperty(ReadableProperty):
     def WriteProperty(self, obj, value, arrayIndex=None, priority=None, direct=False):
         if _debug: ObjectIdentifierProperty._debug("WriteProperty %r %r arrayIndex=%r priority=%r", obj, value, arrayIndex, priority)
 
+        # a write that is not allowed is refused as such, whatever the value
+        if not direct and not self.mutable:
+            raise ExecutionError(errorClass='property', errorCode='writeAccessDenied')
+
         # make it easy to default
         if value is None:
             pass
